@@ -100,6 +100,14 @@ def one_case(ctx: Ctx, stream: str, i: int) -> None:
             if not (gen.close(m @ mi @ m, m) and gen.close(mi @ m @ mi, mi) and gen.close(m @ mi, (m @ mi).T)):
                 ctx.fail(stream, i, 'pseudo-inverse-wrong', 'the inverse of a singular diagonal is not the Moore-Penrose '
                          'pseudo-inverse', cfg)
+        # the dense form of the inverse (`as_matrix`, whichever class provides it) is the matrix inverse as well
+        if invertible:
+            st_m, am = safe(lambda: np.asarray(inv.as_matrix(), dtype=np.float64))
+            if st_m != 'ok':
+                ctx.fail(stream, i, f'inverse-as_matrix-raises:{label}:{st_m}', str(am)[:150], cfg)
+            elif am.shape != mi.shape or not np.all(np.isfinite(am)) or not gen.close(am @ m, np.eye(m.shape[0]), 1e-4):
+                ctx.fail(stream, i, f'inverse-as_matrix-wrong:{label}', f'{type(inv).__name__}.as_matrix() @ A.as_matrix() is '
+                         f'not the identity', cfg)
         # A.I.I denotes A
         st2, back = safe(lambda: inv.I)
         if st2 != 'ok' or not gen.close(gen.dense(back), m):
@@ -180,6 +188,30 @@ def solver_case(ctx: Ctx, stream: str, i: int) -> None:
     am = np.asarray(inv.as_matrix(), dtype=np.float64)
     if not gen.close(am @ m, np.eye(n), 1e-3):
         ctx.fail(stream, i, 'lazy-inverse-as_matrix', 'as_matrix() of the lazy inverse is not the matrix inverse', cfg)
+    # `as_matrix()` of a lazy inverse is THE matrix inverse for every invertible operand: also a non-symmetric one,
+    # and an ill-conditioned one (cond ≈ 4·10⁵: far from singular in the arithmetic of the data)
+    from furax._base.dense import DenseBlockDiagonalOperator
+    k3 = 3
+    mns = np.array([[rng.choice([1.0, 2.0, 3.0]) if r <= c else 0.0 for c in range(k3)] for r in range(k3)]) + \
+        np.diag([3.0, 4.0, 5.0])
+    mns[2, 0] = rng.choice([1.0, -2.0])
+    eig = np.array([3.0, 1.0, 2.0 ** -17])
+    q, _ = np.linalg.qr(np.array([[rng.uniform(-1, 1) for _ in range(k3)] for _ in range(k3)]))
+    mill = np.diag(eig) if rng.random() < 0.5 else (q * eig) @ q.T
+    for lab, mat, tol in (('non-symmetric', mns, 1e-3), ('ill-conditioned', mill, 0.2)):
+        dop = DenseBlockDiagonalOperator(jnp.asarray(mat, dtype=jnp.float64 if jax.config.jax_enable_x64 else jnp.float32),
+                                         gen.S(k3, dtype=jnp.float64 if jax.config.jax_enable_x64 else jnp.float32))
+        st_i, linv = safe(lambda: InverseOperator(dop))
+        if st_i != 'ok':
+            ctx.fail(stream, i, f'lazy-inverse-ctor:{st_i}', lab, cfg)
+            continue
+        st_m, lam = safe(lambda: np.asarray(linv.as_matrix(), dtype=np.float64))
+        want_inv = np.linalg.inv(mat)
+        if st_m != 'ok' or lam.shape != want_inv.shape or not np.all(np.isfinite(lam)) or \
+                not np.allclose(lam, want_inv, rtol=tol, atol=tol * np.abs(want_inv).max()):
+            ctx.fail(stream, i, f'lazy-inverse-as_matrix:{lab}', f'as_matrix() of the lazy inverse of a {lab} operand is not '
+                     f'the matrix inverse ({st_m})', {**cfg, 'matrix': mat.tolist()})
+        ctx.count('lazy-inverse-as_matrix:' + lab)
     back = inv.I
     if not gen.close(gen.dense(back), m):
         ctx.fail(stream, i, 'lazy-inverse-inverse', 'A.I.I does not denote A', cfg)
